@@ -436,7 +436,7 @@ def step (d : DState) (l : Line) : DState × List Verdict :=
         let model : Res String := (rpcForm2At true rh f (10 + rk) h (h + dh1) st sg).bind fun r => .ok (natListStr (recList r))
         let n := (getRev l.obs "n").getD f    -- the signed initial revision handed to AddContract
         fin "rpcFormContract" rec_ model
-          (contractClauses n (h + dh1) st 0 locked ++ [("stored_contract_is_request", (getRev l.obs "n").all (sameContract f))]
+          (contractClauses n (h + dh1) st 0 locked ++ [("window_end_storable", decide (n.wEnd ≤ maxStorable)), ("stored_contract_is_request", (getRev l.obs "n").all (sameContract f))]
             ++ sigClauses.drop 1)
           (closedRec recL (formRecorded f st))
       | _, _, _, _, _ => bad
@@ -457,7 +457,7 @@ def step (d : DState) (l : Line) : DState × List Verdict :=
           | none => []
         fin "rpcRenewAndClearContract" rec_ model
           (contractClauses n (h + dh1) st (baseCost st.storagePrice e f) locked
-            ++ [("stored_contract_is_request", (getRev l.obs "n").all (sameContract f))] ++ clr ++ sigClauses)
+            ++ [("window_end_storable", decide (n.wEnd ≤ maxStorable)), ("stored_contract_is_request", (getRev l.obs "n").all (sameContract f))] ++ clr ++ sigClauses)
           (closedRec recL (renew2Recorded e f fv st))
       | _, _, _, _, _, _, _ => bad
     | "rpcrenew3" =>
@@ -472,7 +472,7 @@ def step (d : DState) (l : Line) : DState × List Verdict :=
         let x := (getRev l.obs "x").getD k
         fin "handleRPCRenew" rec_ model
           (contractClauses n h st (st.renewCost + baseCost st.storagePrice e f) locked
-            ++ [("stored_contract_is_request", (getRev l.obs "n").all (sameContract f)),
+            ++ [("window_end_storable", decide (n.wEnd ≤ maxStorable)), ("stored_contract_is_request", (getRev l.obs "n").all (sameContract f)),
                 ("clearing_stored_is_request", (getRev l.obs "x").all (fun x => showRev x == showRev k))]
             ++ ((clearingClauses e x 0).map fun c => ("clearing_" ++ c.1, c.2)) ++ sigClauses)
           (closedRec recL (renew3Recorded e k f st))
